@@ -42,6 +42,9 @@ type c09Case struct {
 	Busy bool `json:"busy,omitempty"`
 	// ThenFin: the remote closes right behind an illegal message, in the same burst
 	ThenFin bool `json:"then_fin,omitempty"`
+	// ThenMsg: a complete message ("keepalive", "update", "notification") follows a
+	// session-ending message in the same segment; it must change nothing
+	ThenMsg string `json:"then_msg,omitempty"`
 	// Hold0: the remote's OPEN proposes hold time 0 (no session timers); every
 	// cell of the table must read the same
 	Hold0 bool `json:"hold0,omitempty"`
@@ -71,7 +74,7 @@ func c09Prop(t *testing.T, r *hx.Run, sub string) func(c c09Case) hx.Verdict {
 			dir = "out"
 		}
 		v := hx.Verdict{Class: fmt.Sprintf("%s/%s/%s", c.State, c.Stim, dir)}
-		v.NT = fmt.Sprintf("%s/%s/%s/%v/%x/%d/%d/%v/%d/%v/%v", c.State, c.Stim, dir, c.Notif, []byte(c.Raw), c.UpdLen, c.Hold, c.Prev, c.Partial, c.Busy, c.ThenFin) + fmt.Sprint(c.Hold0) + c.OpenVar
+		v.NT = fmt.Sprintf("%s/%s/%s/%v/%x/%d/%d/%v/%d/%v/%v", c.State, c.Stim, dir, c.Notif, []byte(c.Raw), c.UpdLen, c.Hold, c.Prev, c.Partial, c.Busy, c.ThenFin) + fmt.Sprint(c.Hold0) + c.OpenVar + "/" + c.ThenMsg
 		p := basePeer(c.Out)
 		var dev *hx.Dev
 		fail := func(key, f string, a ...any) {
@@ -227,6 +230,18 @@ func c09Prop(t *testing.T, r *hx.Run, sub string) func(c c09Case) hx.Verdict {
 					if lead != nil {
 						cuts = nil
 						stim = append(append([]byte{}, lead...), stim...)
+					}
+					if !legal && c.ThenMsg != "" {
+						cuts = nil
+						stim = append([]byte{}, stim...)
+						switch c.ThenMsg {
+						case "keepalive":
+							stim = append(stim, wire.Keepalive()...)
+						case "update":
+							stim = append(stim, wire.Frame(wire.TypeUpdate, taggedUpdate(0xD3000000, 23))...)
+						case "notification":
+							stim = append(stim, wire.Notif{Code: 6, Sub: 2}.Frame()...)
+						}
 					}
 					conn.RemoteSend(stim, cuts)
 					if thenFin {
@@ -397,6 +412,15 @@ func TestC09(t *testing.T) {
 									return
 								}
 							}
+							for _, tm := range []string{"keepalive", "update", "notification"} {
+								for _, busy := range []bool{false, true} {
+									c2 := c
+									c2.ThenMsg, c2.Busy = tm, busy
+									if !yield(c2) {
+										return
+									}
+								}
+							}
 						}
 					}
 					if s == "fin" || s == "rst" {
@@ -458,6 +482,9 @@ func TestC09(t *testing.T) {
 		c.Hold0 = rapid.IntRange(0, 3).Draw(rt, "hold0") == 0
 		c.Busy = rapid.IntRange(0, 2).Draw(rt, "busy") == 0
 		c.ThenFin = rapid.IntRange(0, 2).Draw(rt, "thenfin") == 0
+		if c.Stim != "fin" && c.Stim != "rst" {
+			c.ThenMsg = pick(rt, "thenmsg", "", "", "keepalive", "update", "notification")
+		}
 		return c
 	}, c09Prop(t, r, "generated"))
 }
